@@ -44,7 +44,7 @@ LEVEL_TEXT = ('All histories up to length 2 (thorough: 3) over a 22-operation al
               'seeded random long histories; the comparison runs after every step, so each history checks all its prefixes. '
               'Fault enumeration: the faults are file deletion, emptying, re-creation and touch at every position.')
 LEVEL_NOTE = 'trusted: a newly constructed Enforcer as the oracle of "what the current files mean"; os.utime for the clock'
-PLAN = {'quick': dict(shards=8, wall=80), 'thorough': dict(shards=16, wall=500)}
+PLAN = {'quick': dict(shards=8, wall=150), 'thorough': dict(shards=16, wall=500)}
 MIN = {'evaluations': 1000, 'steps_compared': 3000, 'deletions': 300, 'reloads_observed': 500,
        'ref_default_steps': 300, 'ref_target_changes': 100}
 ANCHORS = ['oslo_policy._cache_handler:read_cached_file', 'oslo_policy.policy:Enforcer._is_directory_updated',
